@@ -42,6 +42,9 @@ def run(ctx):
     rule_a(ctx, cr)
     rule_bc(ctx, cr)
     rule_d(ctx, cr)
+    ctx.rule("C16.g", "a word operator typed without blanks lists like the spaced spelling: "
+             "Operator::is_word agrees with the operator's listed spelling (C05.e)")
+    _word_ops(ctx, cr)
     ctx.rule("C16.f", "keywords run together with identifiers are split at EVERY reserved word: "
              "Token::scan_alphabetic repeats its search on what is left after each word")
     rule_f(ctx, cr)
@@ -361,3 +364,19 @@ def rule_d(ctx, cr):
                 dep = True
     ctx.check(not dep, "C16.d", "optional-LET/flag-only-in-errors", sl.span,
               "the AST built does not depend on whether LET was written")
+
+
+def _word_ops(ctx, cr):
+    isw = lt.bool_table(cr, "lang::token::Operator::is_word")
+    disp = lt.display(cr, "lang::token::Operator")
+    n = 0
+    for v in cr.variants("lang::token::Operator"):
+        d = disp.get(v)
+        if not isinstance(d, str):
+            continue
+        n += 1
+        ctx.check(isw.get(v) == d.isalpha(), "C16.g", "is_word/%s" % v, "",
+                  "%s lists as %r, is_word = %s" % (v, d, isw.get(v)),
+                  "Operator::%s lists as %r but is_word says %s: typed without blanks (AMODB) it "
+                  "is not separated in the listing, unlike the spaced spelling" % (v, d, isw.get(v)))
+    ctx.floor("C16.g", "operators", n, 19)
